@@ -247,6 +247,11 @@ func (ms *MatrixSetup) UnmarshalOrdered(o any) error {
 		*ms = make(MatrixSetup)
 	}
 	switch src := o.(type) {
+	case nil:
+		// No dimensions. A matrix without a setup (e.g. `matrix: {}`) is
+		// marshalled to JSON as `"setup": null`, so this must be accepted in
+		// order to read back our own output.
+
 	case []any:
 		// Single anonymous dimension, but we only get here if its under a setup
 		// key. (Maybe the user wants adjustments for their single dimension.)
